@@ -12,9 +12,16 @@ def run(tier):
     c.mc("FileIO", "MC_FileIO", "MC_FileIO_legacy.cfg", workers=4, timeout=600, expect_fail=True)
     work = os.path.join(c.scratch, "work")
     os.makedirs(work, exist_ok=True)
-    traces = c.drive(exe, [["@OUT", tier, vlib.SEED, work]], tag="fileio", timeout=2400)
-    # shard the trace by Reset-delimited histories for parallel validation
-    lines = open(traces[0]).read().splitlines()
+    works = []
+    for k, sd in enumerate(vlib.seeds(tier, 4)):
+        w = os.path.join(work, "r%d" % k)
+        os.makedirs(w, exist_ok=True)
+        works.append(["@OUT", tier, sd, w])
+    traces = c.drive(exe, works, tag="fileio", timeout=2400)
+    # shard the traces by Reset-delimited histories for parallel validation
+    lines = []
+    for t in traces:
+        lines += open(t).read().splitlines()
     chunks, cur = [], []
     for ln in lines:
         if ln.startswith('{"e":"Reset"}') and cur:
